@@ -11,7 +11,7 @@ From Coq Require Import List Bool ZArith QArith.
 From Pandora Require Import Lib.Blocks Model.Dataset Model.Machine Model.Multiscale.
 From Pandora Require Import Spec.Language Spec.CrossCheck Spec.Multiscale.
 From Pandora Require Import Proofs.MachineP Proofs.MultiscaleP Gen.Tables Gen.MsConst.
-From Pandora Require Import Model.ScaleArith Gen.ScaleArith Proofs.ScaleArithGenP.
+From Pandora Require Import Model.ScaleArith Gen.ScaleArith Gen.ScaleArithRange Proofs.ScaleArithGenP Proofs.ScaleArithRangeGenP.
 Import ListNotations.
 Open Scope Z_scope.
 
@@ -268,9 +268,9 @@ Qed.
 (* ==================================================================================================
    The interval arithmetic of the state machine, on the text of the code itself.
    Gen/ScaleArith.v is regenerated at every run from pandora/state_machine.py (run_prepare: both branches,
-   matching_cost_prepare, run_multiscale) and pandora/multiscale/fixed_zoom_pyramid.py (disparity_range: initial,
-   window, invalid-index values and the zoom call) by translator/gen_scale_arith.py (ast, statement by
-   statement, fail closed).  C15_gen_*_is_model: the generated functions ARE the hand-written model used by the
+   matching_cost_prepare, run_multiscale) and Gen/ScaleArithRange.v from pandora/multiscale/fixed_zoom_pyramid.py
+   (disparity_range: initial, window, invalid-index values and the zoom call) by translator/gen_scale_arith.py (ast,
+   statement by statement, fail closed).  C15_gen_*_is_model: the generated functions ARE the hand-written model used by the
    theorems above, for ALL inputs (re-proved at every run: `//` for `/`, scale_factor ** (num_scales - 1), a right
    interval not negated or not swapped, a dropped marge, nanmax for nanmin ... no longer check).  The other
    C15_gen_* theorems restate the interval theorems directly on the generated functions. *)
